@@ -242,6 +242,11 @@ func (fd *Client) PutItem(ctx context.Context, input *dynamodb.PutItemInput, opt
 	fd.mu.Lock()
 	defer fd.mu.Unlock()
 
+	return fd.putItemLocked(input)
+}
+
+// putItemLocked is PutItem for a caller that holds the client lock
+func (fd *Client) putItemLocked(input *dynamodb.PutItemInput) (*dynamodb.PutItemOutput, error) {
 	if fd.forceFailureErr != nil {
 		return nil, fd.forceFailureErr
 	}
@@ -268,6 +273,11 @@ func (fd *Client) DeleteItem(ctx context.Context, input *dynamodb.DeleteItemInpu
 	fd.mu.Lock()
 	defer fd.mu.Unlock()
 
+	return fd.deleteItemLocked(input)
+}
+
+// deleteItemLocked is DeleteItem for a caller that holds the client lock
+func (fd *Client) deleteItemLocked(input *dynamodb.DeleteItemInput) (*dynamodb.DeleteItemOutput, error) {
 	if fd.forceFailureErr != nil {
 		return nil, fd.forceFailureErr
 	}
@@ -505,6 +515,10 @@ func (fd *Client) BatchWriteItem(ctx context.Context, input *dynamodb.BatchWrite
 		return &dynamodb.BatchWriteItemOutput{}, err
 	}
 
+	// the whole batch is one atomic step: the lock is held from the validation to the last write
+	fd.mu.Lock()
+	defer fd.mu.Unlock()
+
 	if err := fd.validateBatchWriteRequests(input); err != nil {
 		return &dynamodb.BatchWriteItemOutput{}, err
 	}
@@ -524,7 +538,7 @@ func (fd *Client) BatchWriteItem(ctx context.Context, input *dynamodb.BatchWrite
 
 	return &dynamodb.BatchWriteItemOutput{
 		UnprocessedItems:      unprocessed,
-		ItemCollectionMetrics: fd.getItemCollectionMetrics(),
+		ItemCollectionMetrics: fd.itemCollectionMetrics,
 	}, nil
 }
 
@@ -596,9 +610,6 @@ func (fd *Client) BatchGetItem(ctx context.Context, input *dynamodb.BatchGetItem
 
 // validateBatchWriteRequests rejects the whole batch before anything is written when a request can not be applied
 func (fd *Client) validateBatchWriteRequests(input *dynamodb.BatchWriteItemInput) error {
-	fd.mu.Lock()
-	defer fd.mu.Unlock()
-
 	if fd.forceFailureErr != nil {
 		return nil
 	}
@@ -660,7 +671,7 @@ func validateBatchWriteItemInput(input *dynamodb.BatchWriteItemInput) error {
 
 func executeBatchWriteRequest(ctx context.Context, fd *Client, table *string, req types.WriteRequest) error {
 	if req.PutRequest != nil {
-		_, err := fd.PutItem(ctx, &dynamodb.PutItemInput{
+		_, err := fd.putItemLocked(&dynamodb.PutItemInput{
 			Item:      req.PutRequest.Item,
 			TableName: table,
 		})
@@ -669,7 +680,7 @@ func executeBatchWriteRequest(ctx context.Context, fd *Client, table *string, re
 	}
 
 	if req.DeleteRequest != nil {
-		_, err := fd.DeleteItem(ctx, &dynamodb.DeleteItemInput{
+		_, err := fd.deleteItemLocked(&dynamodb.DeleteItemInput{
 			Key:       req.DeleteRequest.Key,
 			TableName: table,
 		})
